@@ -329,6 +329,7 @@ class HookEval:
         self.rel = rel
         self.probes: list[tuple[tuple, str]] = []   # (path, key) probed
         self.iterated_mapping: list[str] = []
+        self.imprecise = False      # a test was approximated as "either outcome" (whole-value test)
         if isinstance(fn, (ast.FunctionDef, ast.Lambda)):
             if len(fn.args.args) != 2:
                 raise AnalysisError(f"{rel}: hook {self.name} does not take (object, type)")
@@ -521,6 +522,7 @@ class HookEval:
                 if v[0] not in ("seq", "list"):
                     if v[0] in ("cls", "map", "opaque"):
                         self.iterated_mapping.append(f"len() of a mapping at line {node.lineno}")
+                        self.imprecise = True
                         return self._fork_bool()
                     if v[0] == "prim" and v[1] == "str":
                         return self._fork_bool()
@@ -619,8 +621,41 @@ class HookEval:
             if len(ks) > 1:
                 return self._fork_any(w, p, v)
             return self._fork_bool()
+        whole = self._whole_value_ops(node, w, extra)
+        if whole:
+            # the test looks at the value as a whole (its key set / size / iteration order): undetermined for
+            # the analysis, and for a mapping it observes undeclared keys (reported under C15)
+            self.iterated_mapping.extend(whole)
+            self.imprecise = True
+            return BOTH
         raise AnalysisError(f"{self.rel}:{getattr(node, 'lineno', '?')}: unsupported test in {self.name}: "
                             f"{ast.unparse(node)}")
+
+    def _whole_value_ops(self, node, w, extra):
+        out = []
+        for n in ast.walk(node):
+            target = None
+            what = None
+            if isinstance(n, ast.Call) and dotted(n.func) in ("set", "list", "dict", "sorted", "len", "tuple", "frozenset",
+                                                              "any", "all", "sum", "iter", "next") and n.args:
+                target, what = n.args[0], f"{dotted(n.func)}()"
+            elif isinstance(n, ast.Call) and isinstance(n.func, ast.Attribute) and n.func.attr in ("keys", "items", "values"):
+                target, what = n.func.value, f".{n.func.attr}()"
+            elif isinstance(n, (ast.comprehension,)):
+                target, what = n.iter, "iteration"
+            if target is None:
+                continue
+            p = self.path_of(target, extra)
+            if p is None:
+                continue
+            try:
+                v = self.value_at(w, p)
+            except Fork:
+                raise
+            if v[0] in ("cls", "map", "opaque") or (v[0] == "prim" and v[1] == "any"):
+                out.append(f"{what} applied to the mapping {ast.unparse(target)} at line {getattr(n, 'lineno', '?')} "
+                           f"(`{ast.unparse(node)[:60]}`)")
+        return out
 
     def _fork_bool(self):
         return BOTH
